@@ -101,6 +101,39 @@ CLAIMED = {
         design='5 / C11',
         note=TB + 'Closed under the global context. Array semantics (NumPy dispatch) tested, not proved.',
         technique='Coq case-analysis proofs over Q + vm_compute correspondence + exhaustive dimension-pair oracle'),
+    'C12': dict(
+        text='Machine-checked proof (Coq) over the loader model built on the C10 evaluator: any molar enthalpy / entropy / heat capacity, in '
+             'whatever compatible unit it was written (the quantity carries its SI magnitude), becomes a PLAIN number after division by the '
+             'declared gas constant (and T_ref) with the stated value; equal SI quantities load to equal numbers; zero is a quantity like any '
+             'other; a bare number with no default unit is rejected; an explicit unit needs no default. Tie: correspondence of qty_load/nd_H/nd_S/'
+             'in_K on the generated values, and a direct oracle: each synthetic library is written in five presentations (default-unit block, '
+             'explicit units incl. prefixes, non-dimensional keys, two mixtures), loaded through GroupLibrary.Load and compared pairwise and '
+             'against the truth, incl. plain-number type checks.',
+        design='5 / C12',
+        note=TB + 'Closed under the global context. YAML text -> tree (PyYAML, yaml_io/schema.py) is outside the model; exponent notation in unit '
+             'strings is outside the unit grammar (not generated).',
+        technique='Coq proofs over Q on the C10 evaluator + vm_compute correspondence + five-presentation load oracle'),
+    'C13': dict(
+        text='Machine-checked proof (Coq, reals) over the model of ThermochemIncomplete.update / GroupLibrary.Update / the include driver, '
+             'whose step returns the new state AND what was raised: a rejection (read-only-data, incomplete-data) leaves the correlation '
+             'unchanged; a successful merge keeps T_ref, takes the union of ranges, and its table is the union map (other wins); a conflicting '
+             'datum is rejected; overwrite never is; a file naming one group twice is rejected and distinct names are all accepted. '
+             'Tie: correspondence of update sequences (state after every step) and of include trees; direct oracle: union / conflict / '
+             'atomicity / idempotence on sequences, and all include orders and nestings (star, chain) of split data loading to equal contents.',
+        design='5 / C13',
+        note=TB + 'Axioms: standard-library real-number axioms as printed. Files share one T_ref (quantifier); order-freeness over arbitrary '
+             'include trees (merge_order_free) is decided by the oracle over all generated orders, not yet by a theorem.',
+        technique='Coq proofs over R of a state+exception step model + vm_compute correspondence + all-orders load oracle'),
+    'C18': dict(
+        text='Machine-checked proof (Coq): the meaning of "to the six significant digits written" - any correct 6-digit rounding has relative '
+             'error <= 5e-6 (and the reference rounding used by the check is a correct rounding). The formatter/loader text layer is decided '
+             'by execution on every run: yaml_format(units) -> library file -> GroupLibrary.Load for random correlations (incl. zero / missing '
+             'parts, -0.0, 13-digit values) x 8 unit choices and for groups of every shipped library: exactness in the non-dimensional form, '
+             '6-digit bounds in the dimensional form, presence of every part, temperatures equal to the 6-digit rounding (checked in Coq).',
+        design='5 / C18',
+        note=TB + 'Closed under the global context. Partial: the theorem covers the rounding bound; presence/exactness are decided by the '
+             'round-trip oracle because the text layer (PyYAML, NumPy repr) is runtime.',
+        technique='Coq proof of the rounding bound over Q + executed round-trip oracle + vm_compute check of written temperatures'),
 }
 
 PENDING_REASON = 'check not built yet in this round (design in DESIGN.md section 5); not claimed until it runs'
